@@ -35,11 +35,27 @@ Apply(s, e) ==
       \* pvalue(score(p)) <= p :  n2 / den <= pn / pd
       badinv == {q \in 1..Len(e.inv) : e.inv[q][3] * e.inv[q][2] > e.inv[q][1] * e.den + e.inv[q][2]}
       struct == e.sf_mono /\ e.sf_inrange /\ e.sf_len = M * 1000 + 1
-  IN [ok |-> struct /\ badpv = {} /\ mono /\ badinv = {}, st |-> s,
+      \* the two shapes of the recorded finding C11-wildcard-frequency-below-minimum, told apart from every other failure:
+      \* a p-value of exactly one reported for a query so low that every attainable word counts (the exact tail is the
+      \* mass of the words without a wildcard), and a round trip for a p above that mass whose score comes back with p = 1
+      allmass == TW(LAMBDA w : TRUE)
+      knownpv == {q \in badpv : e.pv[q][2] = e.den /\ hi(e.pv[q][1]) = allmass}
+      \* scores far outside the table (1e9, f32::MAX, infinities): nothing scores that high, everything attainable scores
+      \* above the low ones.  <<sign, numerator, exact>>
+      far == IF "far" \in DOMAIN e THEN e.far ELSE <<>>
+      badfar == {q \in 1..Len(far) : IF far[q][1] = 1 THEN far[q][2] # 0
+                                     ELSE far[q][2] > allmass + (IF far[q][3] = 1 THEN 0 ELSE 1) \/ far[q][2] < allmass - (IF far[q][3] = 1 THEN 0 ELSE 1)}
+      knownfar == {q \in badfar : far[q][1] = -1 /\ far[q][2] = e.den}
+      knowninv == {q \in badinv : e.inv[q][3] = e.den /\ e.inv[q][1] * e.den > allmass * e.inv[q][2]}
+  IN [ok |-> struct /\ badpv = {} /\ mono /\ badinv = {} /\ badfar = {}, st |-> s,
       exp |-> [why |-> IF ~struct THEN "table_not_monotone_or_out_of_range"
-                       ELSE IF badpv # {} THEN "pvalue_outside_exact_tail_bounds"
-                       ELSE IF ~mono THEN "pvalue_not_monotone" ELSE "round_trip_increases_pvalue",
-               detail |-> IF badpv # {} THEN LET q == CHOOSE q \in badpv : TRUE IN
+                       ELSE IF badpv \ knownpv # {} THEN "pvalue_outside_exact_tail_bounds"
+                       ELSE IF badfar \ knownfar # {} THEN "pvalue_of_a_score_far_outside_the_table"
+                       ELSE IF ~mono THEN "pvalue_not_monotone"
+                       ELSE IF badinv \ knowninv # {} THEN "round_trip_increases_pvalue"
+                       ELSE IF badpv # {} \/ badfar # {} THEN "pvalue_one_below_smallest_attainable_score"
+                       ELSE "round_trip_for_p_above_the_mass_of_wildcard_free_words",
+               detail |-> IF badpv # {} THEN LET q == IF badpv \ knownpv # {} THEN CHOOSE q \in badpv \ knownpv : TRUE ELSE CHOOSE q \in badpv : TRUE IN
                               <<e.pv[q][1], e.pv[q][2], lo(e.pv[q][1]), hi(e.pv[q][1])>>
                           ELSE IF badinv # {} THEN e.inv[CHOOSE q \in badinv : TRUE] ELSE <<>>]]
 
